@@ -8,7 +8,10 @@ three-cell window for infinite / segment states, Schmidt values / entropies / sp
 """
 import json
 
-import numpy as np
+import os
+for _v in ('OMP_NUM_THREADS', 'OPENBLAS_NUM_THREADS', 'MKL_NUM_THREADS'):
+    os.environ.setdefault(_v, '1')
+import numpy as np  # noqa: E402
 
 import common
 import mps_gen as G
@@ -16,6 +19,9 @@ from common import coq_lit, Nat, CoqRaw
 
 TOL = 2e-9
 K_COVERING = 'C07:from_product_mps_covering:local-index-order-is-not-an-involution'
+K_BFLAT_L1 = 'C07:from_Bflat:infinite-L1-chi>1-not-canonicalized'
+K_INF2 = 'C07:canonical_form_infinite2:unsorted-virtual-legs-raise'
+K_COV_X = 'C07:from_product_mps_covering:interleaved-local-states-with-charges:ValueError-incompatible-LegCharge'
 
 
 # ------------------------------------------------------------------------------------------------ helpers
@@ -124,17 +130,26 @@ def form_cases(case, r, A, key, fin):
     return out
 
 
-def dense_schmidt(vec, cut):
+_ds_cache = {}
+
+
+def dense_schmidt(vec, cut, key=None):
+    """normalised Schmidt values of a dense tensor at a cut (cached per reference object `key`)"""
+    if key is not None and (key, cut) in _ds_cache:
+        return _ds_cache[(key, cut)]
     s = G.schmidt(vec, cut)
-    return s / np.linalg.norm(s)
+    s = s / np.linalg.norm(s)
+    if key is not None:
+        _ds_cache[(key, cut)] = s
+    return s
 
 
 def cmp_spec(s_impl, s_ref, tol=1e-7):
     """compare two Schmidt spectra (descending, zeros ignored)"""
     a = np.sort(np.asarray(s_impl, dtype=float))[::-1]
     b = np.sort(np.asarray(s_ref, dtype=float))[::-1]
-    a = a[a > 1e-10]
-    b = b[b > 1e-10]
+    a = a[a > 1e-6]
+    b = b[b > 1e-6]
     if len(a) != len(b):
         return 'rank %d vs dense %d' % (len(a), len(b))
     if len(a) and np.max(np.abs(a - b)) > tol:
@@ -253,12 +268,20 @@ class InfRef:
         return G.rdm_from_vec(self.patch, [s - self.first for s in seg])
 
     def schmidt(self, b):
+        if not hasattr(self, '_sc'):
+            self._sc = {}
+        if b not in self._sc:
+            self._sc[b] = self._schmidt(b)
+        return self._sc[b]
+
+    def _schmidt(self, b):
         if self.tm is not None:
             c = self.tm.Ms[b % self.L].shape[0]
             l = self.tm.left(b).reshape(c, c)
             r = self.tm.right(b).reshape(c, c)
             w = np.linalg.eigvals(r @ l.T)
             w = np.abs(np.real(w / np.sum(w)))
+            w[w < 1e-12] = 0.        # eigenvalue noise; its square root would look like a Schmidt value
             return np.sqrt(w)
         k = b + self.L - self.first        # cut inside cell 1 of the patch
         s = G.schmidt(self.patch, k)
@@ -356,7 +379,7 @@ def check_finite(ctx, case, r, A, key, D, SI):
             vt = ref.vec / np.linalg.norm(ref.vec)
             ents = []
             for cut in range(1, L):
-                sd = dense_schmidt(vt, cut)
+                sd = dense_schmidt(vt, cut, key=('f', id(D)))
                 ents.append(G.entropy(sd))
                 m = cmp_spec(Ss[cut], sd)
                 if m:
@@ -502,7 +525,7 @@ def check_segment(ctx, case, r, A, key, Dpar, SI):
                 g = first + cut
                 if g <= 0 or g >= vec.ndim or Ss[cut] is None:
                     continue
-                m = cmp_spec(Ss[cut], dense_schmidt(vec, g))
+                m = cmp_spec(Ss[cut], dense_schmidt(vec, g, key=('s', id(Dpar))))
                 if m:
                     fail('stored _S[%d] are not the Schmidt coefficients of the parent state at that cut (%s)' % (cut, m), k)
             if o.get('norm_test', 0) > 1e-8:
@@ -644,12 +667,36 @@ def main(ctx):
         info = {'stream': bc, 'case': case}
         known = bc == 'finite' and covering_known(spec)
         if 'build_error' in r:
-            ctx.fail('oracle', 'constructor %s raised on valid input: %s' % (method, r['build_error'][:300]), info,
-                     match_key=K_COVERING if known else 'C07:%s:%s:raises' % (bc, method))
+            mk = K_COVERING if known else 'C07:%s:%s:raises' % (bc, method)
+            if method == 'covering' and not known and 'incompatible LegCharge' in r['build_error'] and G.FAMILY_MOD[G.KINDS[spec['sites'][0]][2]]:
+                gs = [sorted(g) for g in spec['build']['groups']]
+                if any(a[0] < b[0] < a[-1] or a[0] < b[-1] < a[-1] for a in gs for b in gs if a is not b):
+                    mk = K_COV_X
+            ctx.fail('oracle', 'constructor %s raised on valid input: %s' % (method, r['build_error'][:300]), info, match_key=mk)
             ctx.count(bc, [spec], nontrivial=True)
             continue
+        if bc == 'infinite' and method == 'bflat' and len(spec['sites']) == 1 and max(spec['build']['chi']) > 1:
+            # from_Bflat canonicalises only when L > 1: the single-site unit cell keeps the raw tensor with the
+            # label it was given and made-up singular values
+            o = r['obs'][0]
+            tm = G.TM(D['Ms'])
+            got = A.get(key + '_0_rho0')
+            bad = got is None or np.max(np.abs(got / np.trace(got) - tm.rdm([0]))) > 1e-7 or o.get('norm_test', 1) > 1e-7
+            if bad:
+                ctx.fail('oracle', 'from_Bflat(bc=infinite) with a single-site unit cell and chi=%d returns the raw tensor labelled %r with '
+                         'uniform singular values: norm_test()=%s, <observables> wrong' % (spec['build']['chi'][0], spec['build']['form'], o.get('norm_test')),
+                         info, match_key=K_BFLAT_L1)
+                ctx.count(bc, [spec], nontrivial=True)
+                continue
         if 'op_error' in r:
             e = r['op_error']
+            opx = case['ops'][e['step']]
+            prev = [o for o in r['obs'] if o is not None][-1]
+            if opx.get('method') == 'canonical_form_infinite2' and 'incompatible LegCharge' in e['msg']:
+                ctx.fail('oracle', 'canonical_form_infinite2 raises ValueError(incompatible LegCharge) on an iMPS whose virtual legs are not sorted by charge',
+                         info, match_key=K_INF2)
+                ctx.count(bc, [spec, case['ops']], nontrivial=True)
+                continue
             ctx.fail('oracle', '%s raised %s: %s (bc=%s, built by %s)' % (case['ops'][e['step']]['op'], e['type'], e['msg'][:200], bc, method),
                      info, match_key='C07:%s:%s:raises' % (bc, case['ops'][e['step']]['op']))
         if known:
